@@ -159,7 +159,7 @@ func (st *runState) body(ri *simcheck.RunInfo) *simrt.Sim {
 		time.Sleep(time.Duration(s.Cfg.StartOffsetS) * time.Second)
 	}
 	time.Local = time.FixedZone("sim", s.Cfg.TZOffsetMin*60)
-	sim := simrt.New(s.Sched)
+	sim := simrt.New(s.Sched, s.SchedSeed)
 	defer sim.Close()
 	st.db = chfake.NewDB(s.Faults, st.nextEv)
 	var sys *System
@@ -252,7 +252,15 @@ func (st *runState) client(sim *simrt.Sim, sys *System, ci int, c Client) {
 		st.mu.Unlock()
 		w := Encode(id, op, time.Now().UnixNano())
 		if op.Hostile != "" {
-			Mutate(w, op.Hostile, op.HostileN)
+			for i, rc := range strings.Split(op.Hostile, "+") {
+				Mutate(w, rc, op.HostileN+i*31)
+			}
+		}
+		if op.Hostile != "" && strings.HasPrefix(w.Path, "/influx") && !st.s.ProbeKnown {
+			// known finding (known_findings.json): a body ending in a backslash makes telegraf's stream parser
+			// spin forever. That input class is probed deterministically by the driver and excluded here,
+			// because every occurrence costs a worker process and the stall timeout.
+			w.Body = bytes.TrimRight(w.Body, "\\")
 		}
 		rec := &ReqRec{ID: id, Client: ci, Op: op, Wire: w, StartT: time.Now(), BodyLen: len(w.Body), Hostile: op.Hostile != ""}
 		if rec.Hostile {
